@@ -5,9 +5,10 @@ C03 — clauses of the property the unchanged tree violates, refuted with concre
 F4  `Context.OnCancel` is a no-op: openLogs calls it on a by-value copy of the context, the
     cancel function ranges over the slice of the value NewContext was called with. closeLogs never
     runs; the writers pool gains one reference per context and never loses one.
-F20 reverseproxy.Handler.Cleanup releases a hosts-pool reference per configured upstream even if
-    Provision failed before it took them (LoadModuleByID calls Cleanup after a failed
-    Provision): a rejected load steals the running configuration's reference.
+F20 (FIXED by d6561d4) reverseproxy.Handler.Cleanup used to release a hosts-pool reference per
+    configured upstream even if Provision had failed before it took them: a rejected load stole
+    the running configuration's reference. The old Cleanup is kept below as a separate
+    definition, with the theorem that it breaks the pool clause (non-vacuity of the fix).
 -/
 import CaddyModel.C03.LemmasP
 import CaddyModel.C03.Spec
@@ -48,14 +49,19 @@ def wRpA : Cfg := ⟨0, [], [⟨3, 1, 0, [], [⟨0, 4⟩]⟩]⟩
 def wRpB : Cfg := ⟨0, [], [⟨3, 2, 0, [], [⟨3, 4⟩]⟩]⟩
 def wEnvH : Env := ⟨true, false, 0, [], [3], []⟩
 
-/-- Full clause, hosts pool: ∀ ops k, mpool k = (keys held by the running config's modules).count k.
-    Refuted: config A (reverse proxy to upstream 4) runs; config B, whose reverse proxy to the same
-    upstream fails early, is rejected — A still runs and still uses upstream 4, the pool entry has
-    0 references. -/
-theorem hosts_function_of_current_full_fails :
-    ∃ ops : List Op,
-      (runOps State.init ops).rawJSON = some wRpA ∧ curKeys (runOps State.init ops) = [4] ∧
-      Spec.wantPool (some wRpA) 4 = 1 ∧ (runOps State.init ops).mpool 4 = 0 :=
-  ⟨[.load wRpA wEnvH, .load wRpB wEnvH], by decide⟩
+/-- what LoadModuleByID's immediate Cleanup did to the hosts pool BEFORE fix d6561d4 when a reverse
+    proxy with upstream `key` failed early: hosts.Delete for an upstream it never acquired -/
+def oldEarlyRpCleanup (key : Nat) (s : State) : State := { s with mpool := decr s.mpool key }
+
+/-- with the old Cleanup the pool clause fails: config A (reverse proxy to upstream 4) runs; the
+    rejected config B's early-failing reverse proxy to the same upstream would leave the entry
+    with 0 references although A still holds it. With the code as it is now the same history
+    keeps the reference (regression case in corpus/C03). -/
+theorem hosts_function_of_current_old_code_fails :
+    curKeys (runOps State.init [.load wRpA wEnvH]) = [4] ∧
+    (runOps State.init [.load wRpA wEnvH]).mpool 4 = 1 ∧
+    (oldEarlyRpCleanup 4 (runOps State.init [.load wRpA wEnvH])).mpool 4 = 0 ∧
+    (trace State.init [.load wRpA wEnvH, .load wRpB wEnvH]).map (·.1) = [.ok, .errProvision] ∧
+    (runOps State.init [.load wRpA wEnvH, .load wRpB wEnvH]).mpool 4 = 1 := by decide
 
 end CaddyModel.C03
